@@ -109,6 +109,7 @@ type Stats struct {
 	BoundCuts     int
 	LemmaQueries  int
 	ModelHits     int
+	Probed        int
 	ForkSites     map[string]int
 }
 
@@ -171,6 +172,7 @@ type Engine struct {
 	fset         posResolver
 	srcCache     map[string][]string
 	lastModel    map[string]uint64
+	forced       map[string]uint64 // a concrete model found by probing (used instead of asking the solver)
 	InitWarnings []string
 	MaxWitness   int
 	lemmaCache   map[string]bool
@@ -963,6 +965,17 @@ func (e *Engine) concretizeNoBound(t *term.Term, signed bool, what string) int64
 // model returns the replay script of the current path (values of all nondet
 // calls in order) if the path condition is satisfiable.
 func (e *Engine) model(extra ...*term.Term) ([]uint64, bool) {
+	if e.forced != nil {
+		var sc []uint64
+		for _, n := range e.nondets {
+			if n.isSym {
+				sc = append(sc, e.forced[n.t.Name])
+			} else {
+				sc = append(sc, n.cval)
+			}
+		}
+		return sc, true
+	}
 	if e.sdepth != len(e.trace) {
 		return nil, false
 	}
@@ -1116,6 +1129,67 @@ func (e *Engine) stmtAt(site string) string {
 	return strings.TrimSpace(lines[line-1])
 }
 
+var probeVals = []uint64{0, 1, 2, 7, 8, 9, 99, 100, 101, 150, 255, 256, 999999999, 1000000000, 1000000001, 1<<31 - 1, 1 << 31, 1<<32 - 1, 1 << 32, 1<<63 - 1}
+
+// probe searches for an assignment of the symbolic inputs that satisfies the
+// path condition and goal, trying boundary values (and their negations) for
+// one variable at a time with the others at 0, and for all variables at once.
+func (e *Engine) probe(goal *term.Term) map[string]uint64 {
+	var vars []*term.Term
+	for _, n := range e.nondets {
+		if n.isSym {
+			vars = append(vars, n.t)
+		}
+	}
+	if len(vars) == 0 || len(vars) > 64 {
+		return nil
+	}
+	var cands []uint64
+	for _, v := range probeVals {
+		cands = append(cands, v, -v)
+	}
+	try := func(m map[string]uint64) bool {
+		memo := map[*term.Term]uint64{}
+		for _, p := range e.pc {
+			if term.Eval(p, m, memo) != 1 {
+				return false
+			}
+		}
+		return term.Eval(goal, m, memo) == 1
+	}
+	for _, c := range cands {
+		m := map[string]uint64{}
+		for _, v := range vars {
+			m[v.Name] = c
+		}
+		if try(m) {
+			return m
+		}
+	}
+	for _, pv := range vars {
+		for _, c := range cands {
+			m := map[string]uint64{}
+			for _, v := range vars {
+				m[v.Name] = 0
+			}
+			m[pv.Name] = c
+			if try(m) {
+				return m
+			}
+			// the others at 1 as well (0 is often excluded by an assumption)
+			for _, v := range vars {
+				if v != pv {
+					m[v.Name] = 1
+				}
+			}
+			if try(m) {
+				return m
+			}
+		}
+	}
+	return nil
+}
+
 // maxModel returns a model of the path; for resource violations the symbolic
 // inputs are greedily driven towards their largest values while the path
 // stays feasible, so that the native replay manifests unmistakably.
@@ -1182,8 +1256,19 @@ func (e *Engine) assertProp(id string, c *term.Term) {
 		outcome = 1
 		e.recordViolation("assert", id, e.where(), "assertion "+id+" can fail", term.Not(c))
 	default:
-		outcome = 2
-		e.inconclusive("solver-unknown-assert:" + id)
+		// the solver gave up: look for a witness among boundary values by plain
+		// evaluation (sound for violations: the assignment is checked against the
+		// whole path condition and the negated assertion; silent otherwise)
+		if m := e.probe(term.Not(c)); m != nil {
+			outcome = 1
+			e.forced = m
+			e.recordViolation("assert", id, e.where(), "assertion "+id+" can fail (witness found by evaluating boundary values after the solver returned unknown)")
+			e.forced = nil
+			e.Stats.Probed++
+		} else {
+			outcome = 2
+			e.inconclusive("solver-unknown-assert:" + id)
+		}
 	}
 	e.trace = append(e.trace, decision{n: 1, alts: []uint64{outcome}, kind: 'a'})
 	e.assertDecision(e.tpos, term.True)
